@@ -121,6 +121,16 @@ def check(run):
     av_ = b"XFVA" + struct.pack("<I", len(blocks_)) + blocks_
     bases.append(faults.base("avfx:gen", "avfx", av_, faults.words(len(av_), len(av_))))
     avfx_base = bases[-1]
+    # word dictionary: a valid trie (branches, tails, two start slots) from gen/dictionary.py; every table word, entry field and
+    # block offset / length is a fault position (pointer cycles, ids and offsets one past their tables)
+    from gen import dictionary
+    dtree = ("branch", [(0x61, ("branch", [(0x62, ("leaf",)), (0x63, ("tail", [0x64, 0x65]))], False)), (0x66, ("leaf",)),
+                        (0x67, ("branch", [(0x68, ("leaf",)), (0x69, ("leaf",))], True))], False)
+    dc_, _words = dictionary.build({0x141: dtree, 0x07: ("tail", [0x6A])}, {3: 1}, 2, random.Random(1801), [4, 1, 0, 3, 2])
+    dfields = [(dictionary.HDR + 4 * i, 4) for i in range(10)] + [(dictionary.HDR + 44 + 12, 4)] \
+        + [(o, 2) for o in range(dictionary.BASE + 0x200, len(dc_) - 1, 2) if dc_[o:o + 2] != b"\0\0" or o % 64 == 0] \
+        + [(o, 4) for o in range(dictionary.BASE + 0x200, len(dc_) - 3, 4) if dc_[o:o + 4] != b"\0\0\0\0"][:60]
+    bases.append(faults.base("dic:gen", "dic", dc_, dfields))
     lg_ = open(REPO + "/resources/tests/empty_planlive.lgb", "rb").read()
     bases.append(faults.base("lgb:empty", "lgb", lg_, faults.words(len(lg_), 36)))
     rng = rng_run
